@@ -35,7 +35,7 @@ var hostUniverse = []string{
 }
 
 var prefixPaths = []string{"/", "/a", "/a/b", "/A/b", "/ab", "/a/b/c", "/A", "/b", "/a/B/c", "/straße", "/STRAẞE/x", "/Kelvin", "/kelvin/k", "/Ⱥ", "/ⱥ/z"}
-var globPaths = []string{"/", "/*", "/a", "/a*", "/a/*", "/a/b", "/a/b*", "/a/b/*", "/ab*", "/b*", "/a/b/c*"}
+var globPaths = []string{"/", "/*", "/a", "/a*", "/a/*", "/a/b", "/a/b*", "/a/b/*", "/ab*", "/b*", "/a/b/c*", "/a//*", "/a/./b*", "/a/../*"}
 
 func mixCase(t *rapid.T, s string) string {
 	switch rapid.IntRange(0, 3).Draw(t, "casemode") {
